@@ -1,4 +1,5 @@
 import TextxVerif.Proofs.GenFile
+import TextxVerif.Proofs.GenFileOps
 /-!
 # C31 — generated output files are all-or-nothing
 
@@ -10,6 +11,15 @@ writes, of any length; a crash point is any operation of the sequence
 `open, write₀ … writeₙ₋₁, close(flush), replace`, a failing `write` possibly
 having written part of its data.  The theorems hold for every file system
 state, every chunk list, every crash point and every history of runs.
+
+Second layer (`TextxVerif/Out/GenFileOps.lean`): the same code as the sequence of
+primitive file operations that take effect (`open(tmp,"w")`, one append per
+`write`, `os.replace` / `os.remove`).  `C31_ops_summary` shows that `exportNew`
+is exactly its end state, `C31_prefix_atomic` that the output file is untouched in
+every intermediate state — so the all-or-nothing theorems are consequences of
+the operations the code performs, not of the shape of `exportNew`.
+`C31_history_exact` gives the exact end state of a history from *any* starting
+directory (last completed run wins, files present before survive failed runs).
 -/
 namespace GenFile
 
@@ -100,6 +110,140 @@ theorem C31_skip_iff (exp : FS → Path → List Nat → Crash → FS × Bool) (
     refine ⟨⟨fun _ => ⟨hc.1, ?_⟩, fun _ => rfl⟩, fun _ => rfl⟩
     cases hfs : fs p <;> simp_all
 
+/-! ## operation level -/
+
+/-- **`exportNew` is what the operations of `_open_output` add up to.**  Running the primitive
+operations of the call one after the other (`Op.apply`) ends in exactly the state and the
+return status of `exportNew`, for every starting directory, chunk list and crash point. -/
+theorem C31_ops_summary (fs : FS) (n : Nat) (chunks : List Nat) (crash : Crash) :
+    exportOps fs (.out n) chunks crash = exportNew fs (.out n) chunks crash :=
+  exportOps_eq fs n chunks crash
+
+/-- **All-or-nothing at every intermediate point.**  Stop the call after any number of its
+operations (process killed, exception of any kind): as long as the last operation has not been
+done, every path other than the temporary sibling — in particular the output file — is exactly
+as before the call.  Every recorded state has the output file as it was, except the state after
+the last operation of a call that got through, where it holds the complete content. -/
+theorem C31_prefix_atomic (fs : FS) (n : Nat) (chunks : List Nat) (crash : Crash) :
+    let ops := (program (.out n) chunks crash).1
+    (∀ i, i < ops.length → ∀ q, q ≠ .tmp n → runOps fs (ops.take i) q = fs q) ∧
+    (∀ i s, (statesOf fs ops)[i]? = some s →
+      s (.out n) = if (program (.out n) chunks crash).2 = true ∧ i + 1 = ops.length
+        then some (fullContent chunks) else fs (.out n)) := by
+  refine ⟨fun i hi q hq => program_prefix fs n chunks crash i hi q hq, ?_⟩
+  intro i s hs
+  have hlen : i < (program (.out n) chunks crash).1.length := by
+    have h1 := statesOf_length fs (program (.out n) chunks crash).1
+    rcases Nat.lt_or_ge i (statesOf fs (program (.out n) chunks crash).1).length with h | h
+    · omega
+    · rw [List.getElem?_eq_none h] at hs; cases hs
+  rw [statesOf_get fs _ i hlen] at hs
+  injection hs with hs
+  subst hs
+  by_cases hlast : i + 1 = (program (.out n) chunks crash).1.length
+  · rw [hlast, List.take_length]
+    have hsum := exportOps_eq fs n chunks crash
+    have h1 : runOps fs (program (.out n) chunks crash).1 = (exportNew fs (.out n) chunks crash).1 := by
+      rw [← hsum]; rfl
+    have h2 : (program (.out n) chunks crash).2 = (exportNew fs (.out n) chunks crash).2 := by
+      rw [← hsum]; rfl
+    rw [h1, h2]
+    cases hok : (exportNew fs (.out n) chunks crash).2 with
+    | true => rw [exportNew_ok fs n chunks crash hok]; simp
+    | false => rw [exportNew_failed fs n chunks crash hok]; simp
+  · have hlt : i + 1 < (program (.out n) chunks crash).1.length := by omega
+    rw [program_prefix fs n chunks crash (i + 1) hlt (.out n) (by simp)]
+    simp [hlast]
+
+/-- **What the driver reports per run is sound.**  The flag "every operation before the last has an effect
+on the temporary sibling only" (`opsTrace`, compared with the implementation's mid-run observations) holds
+for the program of `_open_output`, and for *any* operation list it implies that every state before the
+last operation agrees with the start outside that path. -/
+theorem C31_mid_flag (n : Nat) (chunks : List Nat) (crash : Crash) :
+    (program (.out n) chunks crash).1.dropLast.all (Op.onlyB (.tmp n)) = true ∧
+    (∀ (t : Path) (ops : List Op) (fs : FS), ops.dropLast.all (Op.onlyB t) = true →
+      ∀ i, i < ops.length → ∀ q, q ≠ t → runOps fs (ops.take i) q = fs q) :=
+  ⟨program_midOnly n chunks crash, fun t ops fs h i hi q hq => midOnly_sound t ops fs h i hi q hq⟩
+
+/-! ## exact end state of a history -/
+
+/-- **Exact end state, from any starting directory.**  After any history of runs every output
+file holds the complete output of the *last* run that completed for it (`lastDone`, characterised
+in `C31_lastDone_spec`), and exactly what it held at the start if no run completed for it —
+failed runs, with or without `--overwrite`, and skipped runs leave no trace.  No temporary file
+exists afterwards if none existed before. -/
+theorem C31_history_exact (fs0 : FS) (runs : List Run) :
+    let fin := runAll exportNew fs0 runs
+    (∀ n, fin.1 (.out n) =
+      match lastDone (runs.zip fin.2) n with
+      | some r => some (fullContent r.chunks)
+      | none => fs0 (.out n)) ∧
+    ((∀ n, fs0 (.tmp n) = none) → ∀ n, fin.1 (.tmp n) = none) :=
+  ⟨fun n => runAll_out_exact fs0 runs n, fun h0 n => runAll_tmp_none fs0 h0 runs n⟩
+
+/-- what `lastDone` means, independently of its recursion: `some r` iff the history splits as
+`pre ++ (r, done) :: post` with `r` a run for `n` and no completed run for `n` in `post`;
+`none` iff no run completed for `n` -/
+theorem C31_lastDone_spec (l : List (Run × Outcome)) (n : Nat) :
+    (∀ r, lastDone l n = some r ↔
+      ∃ pre post, l = pre ++ (r, Outcome.done) :: post ∧ r.path = n ∧
+        ∀ x ∈ post, ¬ (x.2 = .done ∧ x.1.path = n)) ∧
+    (lastDone l n = none ↔ ∀ x ∈ l, ¬ (x.2 = .done ∧ x.1.path = n)) :=
+  ⟨fun r => lastDone_some_iff l n r, lastDone_none_iff l n⟩
+
+/-- **Files that were there survive failed runs.**  If no run of the history completed for
+output file `n` (every one failed — possibly under `--overwrite` — or was skipped), the file is
+exactly what it was before the history. -/
+theorem C31_failed_runs_keep (fs0 : FS) (runs : List Run) (n : Nat)
+    (hno : ∀ x ∈ runs.zip (runAll exportNew fs0 runs).2, ¬ (x.2 = .done ∧ x.1.path = n)) :
+    (runAll exportNew fs0 runs).1 (.out n) = fs0 (.out n) := by
+  rw [runAll_out_exact, (lastDone_none_iff _ n).2 hno]
+
+/-- **Last writer wins.**  If run `r` completed and no later run completed for the same output
+file, the file holds exactly `r`'s complete output. -/
+theorem C31_last_writer (fs0 : FS) (runs : List Run) (pre post : List (Run × Outcome)) (r : Run)
+    (hsplit : runs.zip (runAll exportNew fs0 runs).2 = pre ++ (r, Outcome.done) :: post)
+    (hpost : ∀ x ∈ post, ¬ (x.2 = .done ∧ x.1.path = r.path)) :
+    (runAll exportNew fs0 runs).1 (.out r.path) = some (fullContent r.chunks) := by
+  rw [runAll_out_exact, (lastDone_some_iff _ r.path r).2 ⟨pre, post, hsplit, rfl, hpost⟩]
+
+/-- **Histories from any starting directory** (generalises `C31_history`): every output file
+that exists afterwards either was there before with the same content or is the complete output
+of a completed run of the history for that file; no temporaries if there were none. -/
+theorem C31_history_from (fs0 : FS) (h0 : ∀ n, fs0 (.tmp n) = none) (runs : List Run) :
+    let fin := runAll exportNew fs0 runs
+    (∀ n c, fin.1 (.out n) = some c → fs0 (.out n) = some c ∨
+      ∃ r, (r, Outcome.done) ∈ runs.zip fin.2 ∧ r.path = n ∧ c = fullContent r.chunks) ∧
+    (∀ n, fin.1 (.tmp n) = none) := by
+  have h := runAll_inv (fun n c => fs0 (.out n) = some c) fs0 ⟨fun _ _ h => h, h0⟩ runs
+  exact ⟨fun n c hc => h.1 n c hc, h.2⟩
+
+/-- **No skipping of truncated files, from any starting directory** (generalises `C31_no_skip`).
+If the run after history `pre` is skipped as already generated, `--overwrite` is off and the file
+it skips is the complete output of the last run that completed for it — or, if none did, the very
+file that was there before the history, unchanged. -/
+theorem C31_no_skip_from (fs0 : FS) (pre : List Run) (r : Run)
+    (hskip : (genFile exportNew (runAll exportNew fs0 pre).1 (.out r.path) r.overwrite r.chunks r.crash).2
+      = .skipped) :
+    r.overwrite = false ∧
+    ((∃ r', lastDone (pre.zip (runAll exportNew fs0 pre).2) r.path = some r' ∧
+        (runAll exportNew fs0 pre).1 (.out r.path) = some (fullContent r'.chunks)) ∨
+     (lastDone (pre.zip (runAll exportNew fs0 pre).2) r.path = none ∧
+        ∃ c, fs0 (.out r.path) = some c ∧ (runAll exportNew fs0 pre).1 (.out r.path) = some c)) := by
+  obtain ⟨hov, hex⟩ := (C31_skip_iff exportNew _ _ _ _ _).1.1 hskip
+  refine ⟨hov, ?_⟩
+  have hexact := runAll_out_exact fs0 pre r.path
+  cases hl : lastDone (pre.zip (runAll exportNew fs0 pre).2) r.path with
+  | some r' =>
+    rw [hl] at hexact
+    exact .inl ⟨r', rfl, hexact⟩
+  | none =>
+    rw [hl] at hexact
+    simp only at hexact
+    cases hc : fs0 (.out r.path) with
+    | none => rw [hexact, hc] at hex; simp at hex
+    | some c => exact .inr ⟨rfl, c, rfl, by rw [hexact, hc]⟩
+
 /-- The pinned export (target opened with `"w"` first) violates the property:
 a failure in the second write leaves a truncated file, and the next run without
 `--overwrite` skips it. -/
@@ -134,5 +278,34 @@ example : (runAll exportNew FS.empty
 example : (runAll exportNew FS.empty
     [⟨0, [1, 2, 3], false, .none⟩, ⟨0, [4, 5], true, .atClose⟩, ⟨0, [4, 5], false, .none⟩]).1 (.out 0) =
     some (fullContent [1, 2, 3]) := by decide
+
+
+/-! ## non-vacuity of the new statements -/
+
+/-- a directory that already holds an output file -/
+def exOld : FS := FS.empty.set (.out 0) (some [.full 9])
+
+example : ∀ n, exOld (.tmp n) = none := by intro n; simp [exOld, FS.set, FS.empty]
+
+-- a failed `--overwrite` run keeps the old file (hypothesis of `C31_failed_runs_keep` holds) …
+example : (runAll exportNew exOld [⟨0, [1, 2], true, .atWrite 1 true⟩]).2 = [.failed] := by decide
+example : (runAll exportNew exOld [⟨0, [1, 2], true, .atWrite 1 true⟩]).1 (.out 0) = some [.full 9] := by decide
+-- … and a run without `--overwrite` skips it (hypothesis of `C31_no_skip_from`, second alternative)
+example : (genFile exportNew exOld (.out 0) false [1, 2] .none).2 = .skipped := by decide
+
+-- `lastDone`: the second completed run wins over the first, the failed third leaves no trace
+example : lastDone ([⟨0, [1], false, .none⟩, ⟨0, [2, 3], true, .none⟩, ⟨0, [4], true, .atClose⟩].zip
+    (runAll exportNew exOld [⟨0, [1], false, .none⟩, ⟨0, [2, 3], true, .none⟩, ⟨0, [4], true, .atClose⟩]).2) 0 =
+    some ⟨0, [2, 3], true, .none⟩ := by decide
+
+-- the operation program of a call that fails in its second write, and of one that gets through
+example : program (.out 0) [1, 2, 3] (.atWrite 1 true) =
+    ([.openW (.tmp 0), .append (.tmp 0) (.full 1), .append (.tmp 0) (.part 2), .remove (.tmp 0)], false) := by decide
+example : program (.out 0) [1, 2] .none =
+    ([.openW (.tmp 0), .append (.tmp 0) (.full 1), .append (.tmp 0) (.full 2), .replace (.tmp 0) (.out 0)], true) := by
+  decide
+-- an intermediate state really differs from the start (in the temporary sibling only)
+example : runOps exOld ((program (.out 0) [1, 2] .none).1.take 2) (.tmp 0) = some [.full 1] := by decide
+example : runOps exOld ((program (.out 0) [1, 2] .none).1.take 2) (.out 0) = some [.full 9] := by decide
 
 end GenFile
